@@ -145,6 +145,8 @@ class ModuleReader(Reader):
 
     def process_SEND(self, data):
         self._load_last_chunk()
+        # Trailing freed links are trimmed from SLNK; drop their slots as well.
+        del self.object.in_link_slots[len(self.object.in_links) :]
         self.object.finalize_load()
         if isinstance(self.object, MetaModule):
             self.object.update_user_defined_controllers()
